@@ -418,3 +418,27 @@ Theorem generate_id : forall bz, length bz = 32%nat -> generate bz = bz.
 Proof.
   intros bz H. unfold generate. apply firstn_exact. exact H.
 Qed.
+
+(* ------------------------------------------------------------------ statements as used by Properties/C19.v *)
+
+Lemma strip_v_spec : forall s,
+  (length s = 65%nat -> strip_v s = firstn 64 s) /\ (length s <> 65%nat -> strip_v s = s).
+Proof. intros s. split; [apply strip_v_65 | apply strip_v_other]. Qed.
+
+Lemma amino_rejects_wrong_size : forall pub key,
+  len key < VARINT_MAX -> length key <> key_size pub -> amino_dec pub (amino_enc pub key) = None.
+Proof.
+  intros pub key Hl Hs. rewrite amino_roundtrip by exact Hl. unfold amino_unmarshal.
+  apply Nat.eqb_neq in Hs. rewrite Hs. reflexivity.
+Qed.
+
+Lemma encodings_injective : forall pub k1 k2,
+  length k1 = key_size pub -> length k2 = key_size pub ->
+  (amino_enc pub k1 = amino_enc pub k2 -> k1 = k2) /\ (proto_enc k1 = proto_enc k2 -> k1 = k2).
+Proof.
+  intros pub k1 k2 H1 H2. split; [apply amino_enc_injective; assumption|].
+  apply proto_enc_injective; unfold len; [rewrite H1 | rewrite H2]; destruct pub; reflexivity.
+Qed.
+
+Lemma generate_spec : forall bz, length (generate bz) = 32%nat /\ (length bz = 32%nat -> generate bz = bz).
+Proof. intros bz. split; [apply generate_length | apply generate_id]. Qed.
